@@ -9,7 +9,8 @@ Static clauses (DESIGN section 4, C06):
   S-SETCONST every Param::Set built anywhere wraps a constant constructor (premise of the Param::Set rows)
   S-GUARD  safe_apply_args returns MissingTxArg for an absent reported parameter before apply_args can run;
            resolve_tx applies arguments only through it
-  T1c (tuples)  an impl of a traversal method on a tuple of IR nodes recurses with the method on every component
+  T1c (tuples)  an impl of a traversal method on a tuple of IR nodes recurses with the method on every component (directly, or
+           with the component put into a sequence that an adaptor walks with a closure calling the method)
   T1 (same substitution)  in apply_args / apply_inputs / apply_fees a child that reaches a traversal method reaches that very method
   F-NORM   parameter / input names put into the IR by the lowering are lower-cased
 """
